@@ -33,7 +33,7 @@ def check(case):
         if st[0] == "rm":
             targets.append(g.line(st[1]))
         elif st[0] == "rm_line":
-            targets.extend(x for x in state.registered(g) if histories.same_line(str(x), st[1], version))
+            targets.extend([x for x in state.registered(g) if histories.same_line(str(x), st[1], version)][:1])      # (the first of the lines written like this is the one the step removes: twins stay)
         try:
             state.apply_step(g, st)
         except Exception as e:
